@@ -8,6 +8,7 @@ import (
 var commands = map[string]func([]string){
 	"c04": runC04,
 	"c05": runC05,
+	"c07": runC07,
 	"c10": runC10,
 	"c11": runC11,
 	"c12": runC12,
